@@ -148,3 +148,29 @@ class Ctx:
             self.pid, self.tier, self.seed, self.states, self.transitions, self.traces_validated,
             self.evaluations, len(self.nontrivial), wall))
         return 0
+
+
+def pmap(ctx, worker, tasks, nproc=None, chunksize=20):
+    """Run worker(task) -> list of records in forked processes and merge the records into ctx.
+    Records: ('case', key, nontrivial, sample) and ('viol', sig, detail, case)."""
+    import multiprocessing as mp
+    tasks = list(tasks)
+    if nproc is None:
+        nproc = min(14, max(1, len(tasks) // 200))
+    if nproc <= 1 or len(tasks) < 50:
+        it = map(worker, tasks)
+        pool = None
+    else:
+        pool = mp.get_context('fork').Pool(nproc)
+        it = pool.imap(worker, tasks, chunksize)
+    try:
+        for recs in it:
+            for r in recs:
+                if r[0] == 'case':
+                    ctx.case(key=r[1], nontrivial=r[2], sample=r[3])
+                else:
+                    ctx.violation(r[1], r[2], case=r[3])
+    finally:
+        if pool is not None:
+            pool.close()
+            pool.join()
